@@ -44,3 +44,9 @@ Theorem C22_implicit_begin_reads_committed :
     fst (fst (step U i SSelect w)) = obs_rows (dump U (w_head w)).
 Proof. exact implicit_begin_reads_committed. Qed.
 Print Assumptions C22_implicit_begin_reads_committed.
+
+From Dolt Require Import C22.OracleProofs.
+
+Theorem C22_oracle_accepts_model : forall i, C22.Corr.oracle i (C22.Corr.model_obs i) = true.
+Proof. exact C22.OracleProofs.oracle_accepts_model. Qed.
+Print Assumptions C22_oracle_accepts_model.
